@@ -263,6 +263,15 @@ class BaseSection(base.Sectionable):
         # raises exception if path cannot be found
         new_section = self.get_section_by_path(new_value)
 
+        # A Section cannot take over the content of itself or of a Section it lives in:
+        # the copy would contain the link again, and resolving it would never end.
+        node = self
+        while node is not None:
+            if node is new_section:
+                raise ValueError("odml.Section.link: a Section cannot link to itself "
+                                 "or to a Section it is contained in.")
+            node = node.parent
+
         # There is no rollback once the former link has been unresolved: make sure
         # the new target can be merged before anything is changed. If a former link
         # is resolved, the check is run on a copy with that link unresolved.
